@@ -35,6 +35,25 @@ REG = {
     },
 }
 
+REG["C16"] = {
+    "units": ["config"],
+    "scope": "TestCaseConfig::{with_defaults_from, with_overrides_from}, DocumentConfig::{with_defaults_from, with_overrides_from}: "
+             "every key and every individual environment variable comes from the higher layer when it sets it (tc_layer/env_layer/doc_layer); "
+             "lemmas over the contracts: associativity, identity of the empty layer, 4-layer first-Some statement, prepend/append accumulate in order",
+    "assumptions": [
+        "R7: FromIterator for BTreeMap over a.into_iter().chain(b): later insert wins (external_body __btree_chain_collect, operands spliced verbatim)",
+        "R15: X.clone().or_else(|| Y.clone()) == pick(X, Y): Clone of bool/i32/Duration/PathBuf/derived-Clone types yields an equal value",
+        "R14: Vec::extend(Vec) appends in order; Option::or per std docs (assume_specification)",
+        "the ORDER in which the call sites compose the layers (markdown.rs TestCodeBlock arm, stateful_executor.rs, bin/commands/test.rs) is out of reach: "
+        "checked textually only (anchor lost => exit 2); format defaults (default_markdown/default_cram values) are not checked",
+    ],
+    "not_decided": ["that every command-line flag is translated into the cli layer (bin/commands/root.rs)", "the values of the format defaults"],
+    "callsites": [
+        ("src/parsers/markdown.rs", "parsed_config.with_defaults_from(&config.defaults).with_defaults_from(&self.base_testcase_config)"),
+        ("src/executors/stateful_executor.rs", "testcase.config=testcase.config.with_defaults_from(&context.config.defaults);"),
+    ],
+}
+
 VX_NOTE = ("Trusted: Verus/Z3; the extractor's rewrite rules (DESIGN §4.2, each firing is logged in evidence.rewrites_fired); "
            "prelude.rs shims and assume_specifications (mechanically scanned into evidence.trusted_base); "
            "machine integers are NOT idealised (usize overflow is an obligation).")
@@ -52,6 +71,10 @@ LEVELS = {
             "text": "Unbounded proof that under one-line-lookahead determinism an accepted output yields a diff without differences.",
             "design_ref": "DESIGN.md §5 C03", "note": VX_NOTE},
 }
+LEVELS["C16"] = {"category": "proof", "technique": "Verus postconditions on extracted with_defaults_from/with_overrides_from + law lemmas over the contracts",
+    "text": "Unbounded proof for all configurations and all environment maps that layering takes each key / variable from the higher layer; "
+            "associativity, identity and accumulation of prepend/append are lemmas over the contracts. Call-site order is assumed (textual anchor).",
+    "design_ref": "DESIGN.md §5 C16", "note": VX_NOTE}
 
 NOT_APPLICABLE = [
     {"property_id": "C04", "reason": "being built (rule matchers under contract) — not yet claimed"},
@@ -66,7 +89,6 @@ NOT_APPLICABLE = [
     {"property_id": "C13", "reason": "being built (CRLF kernel, partial) — not yet claimed"},
     {"property_id": "C14", "reason": "being built (limit selection order, partial) — not yet claimed"},
     {"property_id": "C15", "reason": "decision is interleaved with process spawning/TempDir/Instant inside execute_all; a modular contract would need almost the whole body behind external_body stubs (DESIGN §10)"},
-    {"property_id": "C16", "reason": "being built (config merge laws) — not yet claimed"},
     {"property_id": "C17", "reason": "reader is serde_yaml (external), writer is format!; an inverse law needs the parser's semantics (DESIGN §10)"},
     {"property_id": "C18", "reason": "filesystem effects and Drop of tempfile::TempDir across process exits; outside any function contract (DESIGN §10)"},
     {"property_id": "C19", "reason": "being built (panic freedom of two helpers, partial/bounded) — not yet claimed"},
